@@ -6,5 +6,6 @@ EmitLine(rec) ==
             [format |-> "TXT", charset |-> "UTF-8", openOptions |-> <<"WRITE", "CREATE", "APPEND">>]).exitValue = 0
 Emit == EmitLine([kind |-> kind, body |-> body, v |-> v, w |-> w,
                   toks |-> IF kind = "body" THEN Scan(body, 1) ELSE <<>>,
-                  onlybody |-> kind = "body" /\ OnlyBody(Scan(body, 1))])
+                  onlybody |-> kind = "body" /\ NoExpr(Scan(body, 1)),
+                  expect |-> IF kind = "body" /\ NoExpr(Scan(body, 1)) THEN BodyText(Scan(body, 1)) ELSE <<>>])
 =============================================================================
